@@ -39,7 +39,8 @@ def rand_json(r, depth=2):
     if k == 3:
         return None
     if k == 4:
-        return r.choice([0.5, 2.25, 1e3, 12.125])
+        # (the last few are whole numbers past 2^53 / 2^63 / 2^64: an outputs object holds the value, whatever its size)
+        return r.choice([0.5, 2.25, 1e3, 12.125, 0.5, 2.25, 1e16, 1e19, 18446744073709551616.0, -1e19, 1e300, 9007199254740992.0, 123456789012345680000.0, -9223372036854775808.0])
     if k == 5:
         return [rand_json(r, depth - 1) for _ in range(r.randrange(0, 4))]
     return {r.choice(["a", "b", "c", "k", "n"]): rand_json(r, depth - 1) for _ in range(r.randrange(0, 3))}
